@@ -8,11 +8,11 @@ import (
 	"bytes"
 	"context"
 	"fmt"
+	"math/rand"
 	"runtime"
+	"sort"
 	"strconv"
 	"strings"
-	"math/rand"
-	"sort"
 	"sync"
 	"sync/atomic"
 	"time"
@@ -48,13 +48,13 @@ type drun struct {
 	// filter: what `to` really receives for a message `from` emitted (nil result = dropped). seq = per-sender transmission index (0-based), gseq = global.
 	filter func(m dmsg, seq, gseq int) []dmsg
 	// onSend is called inside the sender's sendMsg, before the message is queued
-	onSend   func(from uint16, seq int)
-	perSend  map[uint16]int
-	gseq     int
-	busy     int32
-	outs     map[uint16][]byte
-	errs     map[uint16]error
-	panics   []string
+	onSend    func(from uint16, seq int)
+	perSend   map[uint16]int
+	gseq      int
+	busy      int32
+	outs      map[uint16][]byte
+	errs      map[uint16]error
+	panics    []string
 	delivered int64
 	gids      map[uint16]uint64
 }
